@@ -51,6 +51,10 @@ Proof. destruct s as [|a [|b [|c t]]]; simpl; auto; discriminate. Qed.
 Lemma gen_nonce_check : forall nonce_nil has_prefix, Gen.scram_nonce_check nonce_nil has_prefix = nonce_nil || negb has_prefix.
 Proof. reflexivity. Qed.
 
+(* T1: the AuthMessage contains the server-first-message as received *)
+Lemma gen_authmsg_raw : Gen.scram_authmsg_uses_raw_server_first = true.
+Proof. reflexivity. Qed.
+
 Lemma T1_codes : code_challenge = 334 /\ code_success = 235.
 Proof. split; reflexivity. Qed.
 
@@ -265,7 +269,7 @@ Section C15.
   Proof.
     intros st msg st1 resp E. unfold handle_server_first in E.
     destruct (sf_parse msg) as [[[combined salt] it]|] eqn:P; [|discriminate].
-    rewrite gen_nonce_check in E.
+    rewrite gen_nonce_check, gen_authmsg_raw in E.
     destruct (is_nil (ss_nonce st) || negb (is_prefix (ss_nonce st) combined)) eqn:C; [discriminate|].
     apply orb_false_iff in C. destruct C as [C1 C2]. apply negb_false_iff in C2.
     destruct (precis (sid_pass id)) as [pw|] eqn:PP; [|discriminate].
